@@ -53,6 +53,14 @@ Theorem C12_weaver_repeat : forall s r s', (0 <= r)%Z -> step s (ORepeat r) = (s
 Proof. exact weaver_repeat. Qed.
 Print Assumptions C12_weaver_repeat.
 
+(** ======== generated arithmetic = model (Gen/Kernels.v is regenerated from the source on every check) ======== *)
+From TW Require Import Model.MatchSpec Model.Process Gen.Kernels Proofs.KernelsLink.
+Theorem C12_generated_repeat_shift : forall x n i, (2 <= n * i)%nat -> (n * i <= length x)%nat ->
+  repeat__previous_range_diff (Z.of_nat n) (Z.of_nat i) (VV x)
+  = VS (nthq (n * i - 1) x - nthq 0 x + (nthq (n * i - 1) x - nthq (n * i - 2) x)).
+Proof. exact gen_repeat_shift. Qed.
+Print Assumptions C12_generated_repeat_shift.
+
 Example C12_example :
   let r := repeat_series [qz 0; qz 1; qz 3] [qz 5; qz 6; qz 7] 2 in
   list_eqb Qc_eqb (fst r) [qz 0; qz 1; qz 3; qz 5; qz 6; qz 8] && list_eqb Qc_eqb (snd r) [qz 5; qz 6; qz 7; qz 5; qz 6; qz 7] = true.
